@@ -5,6 +5,7 @@ import IbicusModel.Lemmas.GenIsimipVars
 import IbicusModel.Lemmas.GenIsimipSteps
 import IbicusModel.Lemmas.GenIsimipSteps2
 import IbicusModel.Lemmas.GenDebWinSdm
+import IbicusModel.Lemmas.GenIsimipStep6
 -- property theorems
 #print axioms Props.C10.step5_bounded_in_range
 #print axioms Props.C10.step5_in_range
@@ -116,3 +117,20 @@ import IbicusModel.Lemmas.GenDebWinSdm
 #print axioms Lemmas.GenDebWinSdm.cdft_steps_denote_methods_single
 #print axioms Lemmas.GenIsimipSteps2.step1_eq_partial
 #print axioms Lemmas.GenIsimipSteps2.step8_wiring_eq
+-- tier A, ISIMIP part 3: `_step6_adjust_values_between_thresholds`, `step6`, the wrappers and `_apply_on_window` regenerated = model
+#print axioms Lemmas.GenIsimipStep6.adjust_eq
+#print axioms Lemmas.GenIsimipStep6.adjust_unbounded
+#print axioms Lemmas.GenIsimipStep6.notMask_eq
+#print axioms Lemmas.GenIsimipStep6.finalCounts_eq
+#print axioms Lemmas.GenIsimipStep6.step6_eq
+#print axioms Lemmas.GenIsimipStep6.get_values_between_thresholds_eq
+#print axioms Lemmas.GenIsimipStep6.maskBeyondLower_fin
+#print axioms Lemmas.GenIsimipStep6.maskBeyondUpper_fin
+#print axioms Lemmas.GenIsimipStep6.maskBetween_fin
+#print axioms Lemmas.GenIsimipStep6.step6_adjust_eq
+#print axioms Lemmas.GenIsimipStep6.step2_off
+#print axioms Lemmas.GenIsimipStep6.step2_on
+#print axioms Lemmas.GenIsimipStep6.step3_eq
+#print axioms Lemmas.GenIsimipStep6.step4_eq
+#print axioms Lemmas.GenIsimipStep6.step5_eq
+#print axioms Lemmas.GenIsimipStep6.apply_on_window_eq
